@@ -8,7 +8,7 @@ BASELINE = json.load(open('/root/.vp/BASELINE.json'))['cmd'] if os.path.exists('
 CHECKS = {
  "C01": ("exploration",
    "bounded-exhaustive enumeration of (current, desired) schema pairs executed on a real SQLite engine through the schema-apply flow, judged by re-diff and by an independent engine-catalogue comparison",
-   "All ordered pairs of schema states built from <=1 feature (quick; plus 2-feature states against their sub-states) or <=2 features (thorough, ~460k pairs) out of 61 elementary SQLite features: the current state is created by our own DDL (two spellings), the desired one is HCL from our own writer; the real inspect/diff/plan/apply runs in a transaction; the second diff must be empty, no statement may be rejected, and the engine catalogue read by our own pragma dump must equal that of the desired schema created directly. The desired state is also taken from atlas' own export of an inspected database, the database may hold a view over the changed table, and a CLI slice runs the real `atlas schema apply --auto-approve` (HCL file and live database as sources), `schema diff` (must report synced) and a second apply (must be a no-op).",
+   "All ordered pairs of schema states built from <=1 feature (quick; plus 2-feature states against their sub-states) or <=2 features (thorough, ~460k pairs) out of 57 elementary SQLite features: the current state is created by our own DDL (two spellings), the desired one is HCL from our own writer; the real inspect/diff/plan/apply runs in a transaction; the second diff must be empty, no statement may be rejected, and the engine catalogue read by our own pragma dump must equal that of the desired schema created directly. The desired state is also taken from atlas' own export of an inspected database, the database may hold a view over the changed table, and a CLI slice runs the real `atlas schema apply --auto-approve` (HCL file and live database as sources), `schema diff` (must report synced) and a second apply (must be a no-op).",
    "SQLite only (no MySQL/PostgreSQL server in the sandbox); the feature catalogue bounds the schemas."),
  "C02": ("exploration",
    "bounded-exhaustive enumeration of edit sets over independently built schema graphs for the three real differs, judged by ground-truth change descriptors the generator knows",
@@ -76,7 +76,7 @@ CHECKS = {
    "Engine execution is SQLite only; MySQL/PostgreSQL plans are covered for the flag and down-file parts by the planner-level checks."),
  "C18": ("model_checking",
    "explicit-state BFS over schema-evolution histories (canonical schema model as state); every history is materialised as a migration directory and analysed by the real `atlas migrate lint` against a real SQLite dev database, judged by a reference model of what each file destroys",
-   "BFS to depth 2 (thorough 3) over 31 evolutions (additive, destructive by DROP / ALTER DROP COLUMN / table rebuild, a column or table dropped and added back in the same file, non-destructive rebuilds, virtual-column drop, temporary table/column inside one file, rebuild followed by DROP TABLE, two rebuilds in one file, copy-and-drop without rename, long files, CRLF line endings): the last file of each history is hand-written SQL and, where expressible, also produced by the real `atlas migrate diff`; for every --latest N the real lint must exit non-zero with DS102/DS103 positioned on the causing statement for exactly the files inside the window that remove a pre-existing table or non-virtual column, and report no DS1xx elsewhere.",
+   "BFS to depth 2 (thorough 3) over 25 evolutions (additive, destructive by DROP / ALTER DROP COLUMN / table rebuild, a column or table dropped and added back in the same file, non-destructive rebuilds, virtual-column drop, temporary table/column inside one file, rebuild followed by DROP TABLE, two rebuilds in one file, copy-and-drop without rename, long files, CRLF line endings): the last file of each history is hand-written SQL and, where expressible, also produced by the real `atlas migrate diff`; for every --latest N the real lint must exit non-zero with DS102/DS103 positioned on the causing statement for exactly the files inside the window that remove a pre-existing table or non-virtual column, and report no DS1xx elsewhere.",
    "SQLite dev database; evolutions are drawn from the stated alphabet (not random schemas)."),
  "C19": ("exploration",
    "bounded-exhaustive enumeration of exclude patterns on a real SQLite engine against a reference of the glob semantics, and of all subsets of skippable change kinds through the three real differs against the filtered unskipped diff",
